@@ -19,7 +19,10 @@
 (* Valid values per type: text - any string of the field's repertoire within MaxLen;        *)
 (* date - a date in the field's format or none; radio/combo/list - existing options.        *)
 (* Strings starting with @ are tokens the harness expands: @latin (Latin-1 letters), @esc   *)
-(* (parentheses, backslash), @spaces (leading/trailing blanks), @lines (two lines).         *)
+(* (parentheses, backslash), @spaces (leading/trailing blanks), @lines (two lines),         *)
+(* @astral (text with supplementary-plane characters, i.e. UTF-16 surrogate pairs),         *)
+(* @cjk (BMP non-Latin text), @cyr (Cyrillic).  The strings themselves live in the harness  *)
+(* (TLC strings stay ASCII); the model only needs their identity.                           *)
 EXTENDS Integers, Sequences, FiniteSets, TLC, Json
 
 Fields == <<
@@ -30,9 +33,9 @@ Fields == <<
   [name |-> "d2", type |-> "date",  multi |-> FALSE, maxlen |-> 0, fmt |-> "yyyy-mm-dd", opts |-> <<>>],
   [name |-> "cb", type |-> "check", multi |-> FALSE, maxlen |-> 0, fmt |-> "",           opts |-> <<>>],
   [name |-> "rb", type |-> "radio", multi |-> FALSE, maxlen |-> 0, fmt |-> "",           opts |-> <<"female", "male", "non-binary">>],
-  [name |-> "co", type |-> "combo", multi |-> FALSE, maxlen |-> 0, fmt |-> "",           opts |-> <<"London", "San Francisco", "Sidney">>],
-  [name |-> "l1", type |-> "list",  multi |-> FALSE, maxlen |-> 0, fmt |-> "",           opts |-> <<"x", "y", "z">>],
-  [name |-> "lm", type |-> "list",  multi |-> TRUE,  maxlen |-> 0, fmt |-> "",           opts |-> <<"x", "y", "z">>] >>
+  [name |-> "co", type |-> "combo", multi |-> FALSE, maxlen |-> 0, fmt |-> "",           opts |-> <<"London", "San Francisco", "Sidney", "@astral">>],
+  [name |-> "l1", type |-> "list",  multi |-> FALSE, maxlen |-> 0, fmt |-> "",           opts |-> <<"x", "y", "z", "@cjk">>],
+  [name |-> "lm", type |-> "list",  multi |-> TRUE,  maxlen |-> 0, fmt |-> "",           opts |-> <<"x", "y", "z", "@astral">>] >>
 NF == Len(Fields)
 
 Range(s) == {s[i] : i \in 1..Len(s)}
@@ -40,8 +43,8 @@ Injective(s) == \A i, j \in 1..Len(s) : i # j => s[i] # s[j]
 
 (* value repertoires (what the generator may choose; all of them valid) *)
 TextVals(f) == IF f.maxlen > 0 THEN {"abc", "12345", "x", ""}                   \* all within maxlen 5
-               ELSE IF f.multi THEN {"@lines", "one line", "", "@latin"}
-               ELSE {"Plain", "", "@latin", "@esc", "@spaces"}
+               ELSE IF f.multi THEN {"@lines", "one line", "", "@latin", "@astral", "@cjk"}
+               ELSE {"Plain", "", "@latin", "@esc", "@spaces", "@astral", "@cjk", "@cyr"}
 DateVals(f) == CASE f.fmt = "dd.mm.yyyy" -> {"31.12.1999", "01.02.2003", "29.02.2024", ""}
                  [] f.fmt = "yyyy-mm-dd" -> {"2020-05-06", "1999-12-31", ""}
 
@@ -58,16 +61,16 @@ Valid(f, v) ==
 (* entry of a single-select list is not an operation a form offers)                              *)
 SetVals(f) ==
   CASE f.type = "text"  -> IF f.maxlen > 0 THEN << <<"abc">>, <<"12345">>, <<"">>, <<"x">> >>
-                           ELSE IF f.multi THEN << <<"@lines">>, <<"one line">>, <<"">>, <<"@latin">> >>
-                           ELSE << <<"Plain">>, <<"@latin">>, <<"@esc">>, <<"@spaces">>, <<"">> >>
+                           ELSE IF f.multi THEN << <<"@lines">>, <<"@astral">>, <<"one line">>, <<"">>, <<"@latin">>, <<"@cjk">> >>
+                           ELSE << <<"Plain">>, <<"@astral">>, <<"@latin">>, <<"@esc">>, <<"@cjk">>, <<"@spaces">>, <<"">>, <<"@cyr">> >>
     [] f.type = "date"  -> IF f.fmt = "dd.mm.yyyy" THEN << <<"31.12.1999">>, <<"01.02.2003">>, <<"">>, <<"29.02.2024">> >>
                            ELSE << <<"2020-05-06">>, <<"1999-12-31">>, <<"">>, <<"2020-05-06">> >>
     [] f.type = "check" -> << <<"t">>, <<"f">>, <<"t">>, <<"f">> >>
     [] f.type = "radio" -> << <<"female">>, <<"male">>, <<"non-binary">>, <<"male">> >>
-    [] f.type = "combo" -> << <<"London">>, <<"San Francisco">>, <<"">>, <<"Sidney">> >>
-    [] f.type = "list"  -> IF f.multi THEN << <<"x", "z">>, <<"y">>, <<"z", "y">>, <<>>, <<"x", "y", "z">> >>
-                           ELSE << <<"x">>, <<"z">>, <<"y">>, <<"x">> >>
-NV == 5     \* the longest repertoire
+    [] f.type = "combo" -> << <<"London">>, <<"San Francisco">>, <<"@astral">>, <<"">>, <<"Sidney">> >>
+    [] f.type = "list"  -> IF f.multi THEN << <<"x", "z">>, <<"@astral", "y">>, <<"y">>, <<"z", "y">>, <<>>, <<"x", "y", "z", "@astral">> >>
+                           ELSE << <<"x">>, <<"@cjk">>, <<"z">>, <<"y">> >>
+NV == 8     \* the longest repertoire
 (* initial values additionally cover the unset states *)
 InitVals(f) ==
   CASE f.type = "radio" -> Append(SetVals(f), <<"">>)
